@@ -658,6 +658,10 @@ def _consumer_table(ctx, ev, rep, orc, etab=None):
                     ai, an = tb.e(c["args"][1])
                     if an["k"] == "Adt":
                         kinds.append(an["vname"])
+                # the per-kind parsers called directly (no dispatcher in between)
+                m_ = re.search(r"::preprocess_(tdh|tdt|ihw|ddw0)$", fn)
+                if m_:
+                    kinds.append(m_.group(1).capitalize())
                 if fn.endswith("::report_error"):
                     for _, an in tb.walk(c["args"][1]):
                         m = re.search(r"\[(E\d+)\]", an.get("str") or "")
